@@ -105,6 +105,22 @@ extern "C" void harness_main() {
     sym_assert(valueOK == !auditor->Errors().HasCriticalErrors(), "value-verdict-iff-no-critical-error");
     sym_reach("type-ok");
   } else sym_reach("rejected");
+#if PART == 1
+  // the constituent-level check for every kind of constituent: same contract (failure <=> critical error; positions inside "alias:==text")
+  {
+    using semantic::CstType;
+    static const struct { CstType type; const char* alias; } KINDS[] = {{CstType::base, "X9"}, {CstType::constant, "C9"}, {CstType::structured, "S9"}, {CstType::axiom, "A9"},
+      {CstType::term, "D9"}, {CstType::function, "F9"}, {CstType::predicate, "P9"}, {CstType::theorem, "T9"}};
+    for (const auto& kind : KINDS) {
+      auto fresh = schema.RSLang().MakeAuditor();
+      const bool ok = fresh->CheckConstituenta(kind.alias, text, kind.type);
+      sym_assert(ok == !fresh->Errors().HasCriticalErrors(), "constituent-verdict-iff-no-critical-error");
+      const int limit = SizeInCodePoints(text) + fresh->prefixLen;
+      for (const auto& e : fresh->Errors().All()) sym_assert(e.position >= 0 && e.position <= limit, "constituent-error-position-inside-input");
+      if (ok) { const bool valueOK = fresh->CheckValue(); sym_assert(valueOK == !fresh->Errors().HasCriticalErrors(), "constituent-value-verdict-iff-no-critical-error"); }
+    }
+  }
+#endif
   auto ja = api::RSFormJA::FromData(std::move(schema));
   // the JSON-returning entry points may raise the documented nlohmann JSON error (e.g. a string that
   // is not valid UTF-8 cannot be dumped); nothing else
